@@ -159,6 +159,12 @@ func isolationMatrix() []isoCell {
 	rule("decimal/minimum", tScalar(kDecimal), &jRules{SMin: pS("0.01")})
 	rule("decimal/maximum-exclusive", tScalar(kDecimal), &jRules{SMax: pS("100"), SExMax: pB(true)})
 	add("rule/key/custom-pattern", oneFieldBundle(fld("value", &jT{Kind: kKey, KeyFmt: "custom", KeyCustom: "^[a-z]{3}$"})))
+	customKeyItem := func() *jT {
+		return &jT{Kind: kKey, KeyFmt: "custom", KeyCustom: "^[a-z]{3}$", List: &jList{Filterable: true}}
+	}
+	add("rule/array-key-custom/list-rules", oneFieldBundle(fld("values", tArr(customKeyItem()))))
+	add("rule/map-key-custom/list-rules", oneFieldBundle(fld("values", tMap(customKeyItem()))))
+	add("rule/key-informal/list-rules", oneFieldBundle(fld("value", tKeyF("informal").with(func(t *jT) { t.List = &jList{Filterable: true} }))))
 	add("rule/key/primary", oneFieldBundle(fld("value", tKeyF("id62").with(func(t *jT) { t.Primary = pB(true) }))))
 	add("rule/key/primary-false", oneFieldBundle(fld("value", tKeyF("id62").with(func(t *jT) { t.Primary = pB(false) }))))
 	add("rule/key/foreign", oneFieldBundle(fld("value", tKeyF("uuid").with(func(t *jT) { t.Foreign = "other.v1.thing" }))))
@@ -351,6 +357,7 @@ type j5Gen struct {
 	rng *rand.Rand
 	// knobs: which known-defective features to leave out of random composites (quarantine)
 	noRules bool
+	seq     int
 }
 
 type j5Known struct {
@@ -414,7 +421,8 @@ func (g *j5Gen) fieldType(k *j5Known, depth int, refPrefix string) *jT {
 		}
 		t := &jT{Kind: kObject, Inline: d}
 		if g.rng.Intn(4) == 0 {
-			t.InlineName = "Custom" + j5TypeWords[g.rng.Intn(len(j5TypeWords))]
+			g.seq++ // two siblings must not pick the same nested name
+			t.InlineName = fmt.Sprintf("Custom%s%d", j5TypeWords[g.rng.Intn(len(j5TypeWords))], g.seq)
 		}
 		return t
 	case c < 11 && depth < 2:
